@@ -323,6 +323,89 @@ def main():
             direct.append({"law": "dataset opens over DAP4 with a hyperslab in the URL", "url_constraint": slab4, "error": repr(e)[:300]})
     r.extra["reads"] = stats
 
+    # ---- grids narrowed to some maps (any order) and sliced: which positions every listed map holds, vs the Gallina model of the
+    # index branch of GridType.__getitem__ (model/GridSel.v) and vs numpy on the map of the axis that bears the name
+    def cchars(t):
+        b = t.encode("utf-8")
+        return "[%s]" % ";".join("ascii_of_nat %d" % x for x in b) if b else "[]"
+    from pydap.lib import _quote
+    g_cases, g_stats = [], {"grids": 0, "narrowed": 0, "unnamed_or_repeated_dims": 0, "remote": 0}
+    DIMPOOL = ["m0", "m1", "m2", "lat deg", "x[1]", "t-z", "lon"]
+    for gi in range(150 if T == "quick" else 2000):
+        rank = rng.randint(1, 3)
+        shape = tuple(rng.randint(1, 6) for _ in range(rank))
+        mode = rng.choice(["named", "named", "named", "none", "repeated"]) if gi >= 4 else "named"
+        dimn = rng.sample(DIMPOOL, rank)
+        if mode == "repeated" and rank >= 2:
+            dimn[1] = dimn[0]
+        dims = () if mode == "none" else tuple(dimn)
+        g_stats["unnamed_or_repeated_dims"] += mode != "named" or len(set(dims)) != rank
+        mapnames = list(dimn) if len(set(dimn)) == rank else ["k%d" % k for k in range(rank)]
+        dsg = DatasetType("d")
+        gg = GridType("g")
+        gg["a"] = BaseType("a", np.arange(int(np.prod(shape)), dtype="i4").reshape(shape), dims=dims)
+        for k in range(rank):
+            gg[mapnames[k]] = BaseType(mapnames[k], np.arange(shape[k], dtype="i4"))
+        dsg["g"] = gg
+        # (names with brackets are not used over the wire: the projection grammar reads them as hyperslabs)
+        # (a Grid whose array carries no dimension names, or repeated ones, is not a DAP2 Grid: such grids stay local)
+        remote = rng.random() < 0.4 and not any("[" in n_ for n_ in dimn) and mode == "named" and len(set(dims)) == rank
+        if remote:
+            try:
+                gobj = open_url("http://localhost:8001/", application=BaseHandler(dsg), output_grid=True)["g"]
+            except Exception as e:  # noqa
+                direct.append({"law": "dataset opens", "error": repr(e)[:200]})
+                continue
+            g_stats["remote"] += 1
+        else:
+            gobj = gg
+        listed = list(range(rank))
+        if gi < 4 or rng.random() < 0.6:
+            listed = rng.sample(range(rank), rng.randint(1 if gi < 4 else 0, rank))
+            gobj = gobj[("a",) + tuple(mapnames[k] for k in listed)]
+            g_stats["narrowed"] += 1
+        per_axis = [axis_forms(n, rng, full=False) for n in shape]
+        for _ in range(3):
+            idx = [rng.choice(f) for f in per_axis][:rng.randint(1, rank)]
+            if rng.random() < 0.25:
+                pz = rng.randrange(len(idx) + 1)
+                idx = idx[:pz] + [Ellipsis] + idx[pz:]
+                if len(idx) - 1 > rank:
+                    continue
+                tail = len(idx) - pz - 1
+                for j in range(tail):
+                    idx[pz + 1 + j] = rng.choice(per_axis[rank - tail + j])
+            g_stats["grids"] += 1
+            r.count(("grid-maps", gi, repr(idx), tuple(listed), mode, remote))
+            info = {"shape": list(shape), "dims": list(dims), "listed_maps": [mapnames[k] for k in listed], "index": repr(idx),
+                    "remote": remote}
+            try:
+                resg = gobj[tuple(idx)]
+                obs = [np.asarray(resg[mapnames[k]].data).reshape(-1).tolist() for k in listed]
+            except Exception as e:  # noqa
+                obs = None
+                info["error"] = repr(e)[:200]
+            # direct oracle: with usable names the map of axis k holds what numpy selects from arange(shape[k]) with item k
+            full = expand(idx, rank)
+            if mode == "named" and len(set(dims)) == rank or listed == sorted(listed) and listed == list(range(len(listed))):
+                want_m = [np.arange(shape[k])[keep(full[k])].reshape(-1).tolist() for k in listed]
+                if obs != want_m and len(direct) < 12:
+                    direct.append(dict(info, law="a sliced grid returns its maps sliced along the matching axes", got=obs, want=want_m))
+            g_cases.append("(%s, %s, %s, %s, %s)" % (
+                clist(list(shape), cz), clist(list(dims), cchars), clist(idx, c_item),
+                clist([(_quote(mapnames[k]), shape[k]) for k in listed], lambda p_: "(%s, %s)" % (cchars(p_[0]), cz(p_[1]))),
+                "None" if obs is None else "(Some %s)" % clist(obs, lambda l_: clist(l_, cz))))
+    r.extra["grid_maps"] = g_stats
+    try:
+        badg = coq_eval_mismatches(PID + "_grid", "GridSelCases", "chk_grid", g_cases,
+                                   "list Z * list chars * list item * list (chars * Z) * option (list (list Z))", shard=200)
+    except RuntimeError as e:
+        r.violation({"kind": "correspondence-broken", "error": str(e)[-1500:], "theorem": "grid map pairing correspondence"}, found=False)
+        badg = []
+    if not direct and badg:
+        r.violation({"kind": "correspondence-broken", "theorem": "index branch of GridType.__getitem__ vs the Gallina model (model/GridSel.v, "
+                     "C02_grid_maps_follow_their_axes)", "case": g_cases[badg[0]], "n_mismatches": len(badg)}, found=False)
+
     try:
         bad = coq_eval_mismatches(PID + "_query", IMPORTS, "chk_query", q_cases,
                                   "list Z * list item * list item * string", shard=200)
@@ -335,7 +418,8 @@ def main():
         r.violation({"kind": "correspondence-broken", "error": str(e)[-1500:], "theorem": "DAP4 query text correspondence"}, found=False)
         bad4 = []
     r.extra["cases"] = {"query": len(q_cases), "dap4_query": len(q4_cases)}
-    r.extra["mismatches"] = {"query": len(bad), "dap4_query": len(bad4)}
+    r.extra["mismatches"] = {"query": len(bad), "dap4_query": len(bad4), "grid_maps": len(badg)}
+    r.extra["cases"]["grid_maps"] = len(g_cases)
     r.cov["rule"] = ("a case is (shape of rank 1-3 with extents 1-6, URL pre-constraint or none, variable kind array/grid with output_grid "
                      "on/off or DAP4 variable in root/group, index tuple built from per-axis forms incl. negatives, out-of-range bounds, "
                      "Ellipsis, short tuples) with a non-empty numpy selection; distinct = distinct tuple")
